@@ -416,6 +416,20 @@ class Sym:
     def sum(self, *a, **k):
         return self
 
+    def __getitem__(self, key):
+        """scalar indexing as on a 0-d array: x[None], x[None, ...], x[...]"""
+        from .tensor import Tensor
+
+        if not isinstance(key, tuple):
+            key = (key,)
+        if all(k is None or k is Ellipsis for k in key):
+            n_new = sum(1 for k in key if k is None)
+            if n_new == 0:
+                return self
+            e = self.e
+            return Tensor((1,) * n_new, lambda idx: e)
+        raise documented(IndexError("too many indices for array: array is 0-dimensional"))
+
 
 def real(name):
     return Sym(fresh(name, z3.RealSort()))
